@@ -60,6 +60,14 @@ impl Spelling {
         }
         // the radix prefix follows the case of the keywords (0X1F / 0B101 are accepted spellings too)
         let up = self.case == Case::Upper;
+        // wide spellings also pad constants with leading zeros (000123, 0x00001F): the value is the same
+        if self.wide {
+            return match self.radix {
+                Radix::Dec => format!("{:07}", v),
+                Radix::Hex => if up { format!("0X{:06X}", v) } else { format!("0x{:06x}", v) },
+                Radix::Bin => format!("{}{:022b}", if up { "0B" } else { "0b" }, v),
+            };
+        }
         match self.radix {
             Radix::Dec => format!("{}", v),
             Radix::Hex => if up { format!("0X{:X}", v) } else { format!("0x{:x}", v) },
